@@ -25,6 +25,20 @@ def hSurjParse : Handler
     some (join [toString ret, toString (nTotalInputs p), toString (nUsedInputs p), toString (serializedSize p), showProof p])
   | _ => none
 
+/-- `surj_parse_len <bytes> <claimed_len>` → as `surj_parse` for an input of `claimed_len` bytes whose first bytes are `bytes`, a
+    complete canonical encoding (other buffers are refused): the specified parser accepts exactly `claimed_len = bytes.length`;
+    every other length fails one of the length tests and leaves the object untouched. -/
+def hSurjParseLen : Handler
+  | [inp, l] => do
+    let b ← hex? inp; let len ← nat? l
+    let (ok, _) := parse b
+    if ok = 0 then none
+    else if len = b.length then hSurjParse [inp]
+    else
+      let p := surjPrior
+      some (join ["0", toString (nTotalInputs p), toString (nUsedInputs p), toString (serializedSize p), showProof p])
+  | _ => none
+
 /-- `surj_serialize <proof_ser> <outlen>` → `ret outlen bytes` (or `noparse`) -/
 def hSurjSerialize : Handler
   | [inp, ol] => do
@@ -90,7 +104,7 @@ def hSurjMkAdv : Handler
   | _ => none
 
 def surjectionHandlers : List (String × Handler) := [
-  ("surj_parse", hSurjParse), ("surj_serialize", hSurjSerialize), ("surj_initialize", hSurjInitialize),
+  ("surj_parse", hSurjParse), ("surj_parse_len", hSurjParseLen), ("surj_serialize", hSurjSerialize), ("surj_initialize", hSurjInitialize),
   ("surj_generate", hSurjGenerate), ("surj_verify", hSurjVerify), ("surj_mk_adv", hSurjMkAdv)
 ]
 
